@@ -34,6 +34,17 @@ type histParams struct {
 	MaxDepth int
 	// UpstreamCookie: the upstream sets a cookie of its own on every response (most applications do)
 	UpstreamCookie bool
+	// LongTokens: the authenticator hands out tokens as long as real signed tokens, so that the sealed
+	// session cookie is larger than 4096 bytes
+	LongTokens bool
+}
+
+// histTokenSuffix is appended to every token of a LongTokens family.
+func histTokenSuffix(p histParams) string {
+	if !p.LongTokens {
+		return ""
+	}
+	return "-" + c03LongToken("hist", 2400)
 }
 
 type histState struct {
@@ -88,6 +99,9 @@ func tokenClass(t string) string {
 	if strings.HasPrefix(t, "access-token-gen") {
 		return "fresh"
 	}
+	if strings.HasPrefix(t, "access-token-login") {
+		return "access-token-login"
+	}
 	return t
 }
 
@@ -130,7 +144,7 @@ type histResult struct {
 }
 
 func histAlphabet(p histParams) authAlphabet {
-	okRefresh := ans(201, fmt.Sprintf(`{"access_token":"access-token-gen","expires_in":%d}`, p.R))
+	okRefresh := ans(201, fmt.Sprintf(`{"access_token":"access-token-gen%s","expires_in":%d}`, histTokenSuffix(p), p.R))
 	member := ans(200, `{"email":"x","groups":["eng"]}`)
 	removed := ans(200, `{"email":"x","groups":[]}`)
 	if p.Alphabet == "c04" {
@@ -186,7 +200,7 @@ func (h *histRunner) login() (*histState, string) {
 	e.Auth.Answer = func(c *harness.AuthCall) harness.AuthAnswer {
 		switch c.Endpoint {
 		case "redeem":
-			return ans(200, fmt.Sprintf(`{"access_token":"access-token-login","refresh_token":"refresh-token","expires_in":%d,"email":%q}`, h.p.R, h.p.User.Email))
+			return ans(200, fmt.Sprintf(`{"access_token":"access-token-login%s","refresh_token":"refresh-token%s","expires_in":%d,"email":%q}`, histTokenSuffix(h.p), histTokenSuffix(h.p), h.p.R, h.p.User.Email))
 		case "profile":
 			return ans(200, harness.JSON(map[string]interface{}{"email": h.p.User.Email, "groups": h.p.User.Groups}))
 		}
